@@ -385,6 +385,18 @@ def run(ctx: vlib.Ctx):
                 "non-trivial = a derived text was read back; distinct = distinct (case, text)")
     ctx.translate(PROJECT)
     proj = ctx.lean(PROJECT, PROPS)
+    # the READER side of the statement (what the reader makes of `F::<derived text>`) is proved in the text engine, over the same
+    # recogniser `pyNumberFull` that `C13_number_language` concludes with: build and audit that module, and check that its copy of
+    # the recogniser is textually the gbnf engine's (two lake projects cannot import each other)
+    ctx.translate("text")
+    ctx.lean("text", ["Octave.Props.C13reader"], extra_targets=())
+    src = (vlib.LEAN / "gbnf" / "Octave" / "Spec" / "PyNumber.lean").read_text()
+    cpy = (vlib.LEAN / "text" / "Octave" / "Lemmas" / "C13Reader.lean").read_text()
+    a = src[src.index("def dropDigits"):src.index("end Octave.Gbnf")].strip()
+    b = cpy[cpy.index("-- BEGIN COPY"):cpy.index("-- END COPY")]
+    b = b[b.index("def dropDigits"):].strip()
+    if a != b:
+        ctx.audit_problems.append("text engine's copy of Spec/PyNumber.lean (Lemmas/C13Reader.lean, BEGIN COPY..END COPY) differs from the gbnf engine's definitions")
     changed = vlib.fingerprints_changed(ctx.prop, ANCHORS)
     if changed:
         ctx.widen = max(ctx.widen, 8)
